@@ -515,6 +515,8 @@ def azimuth(
 ) -> Degrees:
     if at is None:
         at = now()
+    elif at.tzinfo is not None:
+        at = at.astimezone(datetime.timezone.utc)
 
     jd2000 = julianday_2000(at)
     position = moon_position(jd2000)
@@ -531,6 +533,9 @@ def azimuth(
     x = -ch * cd * sl + sd * cl
     y = -sh * cd
     azimuth = degrees(atan2(y, x)) % 360
+    if azimuth >= 360:
+        # a tiny negative angle is rounded up to 360 by the modulo
+        azimuth -= 360
     return azimuth
 
 
@@ -540,6 +545,8 @@ def elevation(
 ):
     if at is None:
         at = now()
+    elif at.tzinfo is not None:
+        at = at.astimezone(datetime.timezone.utc)
 
     jd2000 = julianday_2000(at)
     position = moon_position(jd2000)
